@@ -1,6 +1,42 @@
-/-! Driver commands of the `Ssh` cluster.  `handle` returns `none` for commands that are not its own. -/
-namespace Driver.Ssh
+import TbotVerif.Model.SshWire
+import TbotVerif.Spec.Ssh
+/-! Driver commands of the `Ssh` cluster (C20).  `handle` returns `none` for commands that are not its own.
 
-def handle (_toks : List String) : Option String := none
+* `ssh <case>`                    → canonical observation of the model
+* `sshraw <case>`                 → raw observation of the model (argv as built)
+* `sshcanon <raw observation>`    → the same canonicalisation applied to a recording of the implementation
+* `spec C20 <case> || <canonical observation>` → `1` / `0` -/
+namespace Driver.Ssh
+open _root_.Ssh (observe run)
+
+def splitAt2 (toks : List String) (sep : String) : List String × List String :=
+  (toks.takeWhile (· != sep), (toks.dropWhile (· != sep)).drop 1)
+
+/-- a case that parses is also well-formed by construction; checked all the same -/
+def caseOf (toks : List String) : Option Ssh.Case :=
+  match Ssh.Wire.case toks with
+  | some c => if c.wf then some c else none
+  | none => none
+
+def handle (toks : List String) : Option String :=
+  match toks with
+  | "ssh" :: rest =>
+    some (match caseOf rest with
+    | some c => Ssh.Wire.obsOut (observe (run c))
+    | none => "bad-op")
+  | "sshraw" :: rest =>
+    some (match caseOf rest with
+    | some c => Ssh.Wire.rawOut (run c)
+    | none => "bad-op")
+  | "sshcanon" :: rest =>
+    some (match Ssh.Wire.rawOf rest with
+    | some o => Ssh.Wire.obsOut (observe o)
+    | none => "bad-op")
+  | "spec" :: "C20" :: rest =>
+    let (ct, ot) := splitAt2 rest "||"
+    some (match caseOf ct, Ssh.Wire.obsOf ot with
+    | some c, some o => if Spec.C20 c o then "1" else "0"
+    | _, _ => "bad-op")
+  | _ => none
 
 end Driver.Ssh
